@@ -12,6 +12,7 @@ import (
 	"encoding/xml"
 	"fmt"
 	"io"
+	"math"
 	"os"
 	"os/exec"
 	"strconv"
@@ -518,9 +519,58 @@ func treeList(g *core.G, k int) (ns []*core.N, flags []string) {
 	}
 	for _, x := range ns {
 		sing(x)
+	}
+	// numbers that need 7 to 17 significant decimals (a writer that rounds, or prints with %g / %f, loses them):
+	// odd multiples of 2^-7 … 2^-20, thirds, 1e-7-sized values, values just below 1, long decimal literals
+	if g.Chance(0.4) {
+		var fin func(x *core.N)
+		fin = func(x *core.N) {
+			if x.E != nil {
+				if x.E.Sup != -1 && g.Chance(0.8) {
+					x.E.Sup = fineNumber(g)
+				}
+				if x.E.Len != -1 && g.Chance(0.5) {
+					x.E.Len = fineNumber(g)
+				}
+			}
+			for _, kk := range x.Kids {
+				fin(kk)
+			}
+		}
+		for _, x := range ns {
+			fin(x)
+		}
+		flags = append(flags, "finenumbers")
+	}
+	for _, x := range ns {
 		core.NumberEdges(x)
 	}
 	return
+}
+
+// fineNumber draws a non-negative float64 whose shortest decimal form has 7 to 17 significant digits.
+func fineNumber(g *core.G) float64 {
+	switch g.Intn(7) {
+	case 0: // odd k / 2^m, 7 <= m <= 20: exactly m decimals
+		m := 7 + g.Intn(14)
+		k := 2*g.Intn(1<<uint(m-1)) + 1
+		return float64(k) / float64(int(1)<<uint(m))
+	case 1: // thirds, sevenths: 16-17 significant digits
+		return float64(1+g.Intn(299)) / float64([]int{3, 7, 3, 11}[g.Intn(4)])
+	case 2: // 1e-7 … 9e-7 and neighbours
+		return float64(1+g.Intn(99)) * 1e-7 / float64([]int{1, 1, 10, 100}[g.Intn(4)])
+	case 3: // just below 1 (and below 100)
+		v := []float64{0.99999996, 0.9999999, 0.99999949, math.Nextafter(1, 0), 99.9999995, 0.9999995}
+		return v[g.Intn(len(v))]
+	case 4: // 7 to 12 decimals
+		d := 7 + g.Intn(6)
+		p := math.Pow(10, float64(d))
+		return float64(1+g.R.Int63n(int64(p)-1)) / p
+	case 5: // percentages with 8 decimals: 99.87654321
+		return float64(1+g.R.Int63n(9999999999)) / 1e8
+	default: // 0.1234567-like with exactly 7 decimals, last digit not 0
+		return float64(10*g.Intn(1000000)+1+g.Intn(9)) / 1e7
+	}
 }
 
 var chainFormats = []string{"nexus", "nexustr", "nexus1", "phyloxml", "newick"}
@@ -1295,6 +1345,31 @@ func mixedTranslateCase(c *core.Ctx, i int) {
 	}
 }
 
+// bigDocCase: Nexus and PhyloXML documents of several times bufio's 4096 bytes (the Nexus lexer reads rune by
+// rune through a bufio.Reader with UnreadRune; the PhyloXML parser buffers the whole text): two trees of 120-400
+// tips, whose tip names are shifted by a random amount so that the 4096-byte boundaries fall inside labels,
+// numbers, key words and between tokens; through the library and through `gotree reformat`.
+func bigDocCase(c *core.Ctx, i int) {
+	g := c.G
+	o := core.DefaultOpts()
+	o.MinTips, o.MaxTips = 120, 400
+	o.Lengths, o.Supports = 1, 1
+	o.TipPrefix = "taxon" + strings.Repeat("x", g.Intn(9))
+	a, _ := g.Tree(o)
+	o.MinTips, o.MaxTips = len(a.TipNames()), len(a.TipNames())
+	b, _ := g.Tree(o)
+	core.NumberEdges(a)
+	core.NumberEdges(b)
+	ns := []*core.N{a, b}
+	format := []string{"nexus", "phyloxml", "nexustr"}[i%3]
+	doChain(c, format, "lib", ns)
+	if c.Gotree != "" && i%2 == 0 {
+		if text, aux, ok := inputDoc(format, ns); ok {
+			doReformat(c, format, "newick", false, "stdout", false, ns, text, aux)
+		}
+	}
+}
+
 // boundaryCase: a LAST line whose length is an exact multiple of bufio's 4096-byte buffer (leading blanks pad
 // it): ReadLine then hands ReadUntilSemiColon a full chunk that ends with ';' followed by an EMPTY remainder
 // (or a remainder of blanks only); also such a line in the middle of the file.
@@ -1934,11 +2009,11 @@ func Run(c *core.Ctx) {
 		srcKeywords, srcFormatFlags = SourceKeywords(c.Repo), SourceFormatFlags(c.Repo)
 	}
 	keywordLabelCases(c)
-	n := c.Scale(400, 6000)
+	n := c.Scale(400, 4800)
 	for i := 0; i < n; i++ {
 		chainCase(c, i)
 	}
-	for i := 0; i < c.Scale(300, 4500); i++ {
+	for i := 0; i < c.Scale(300, 3600); i++ {
 		multiCase(c, i)
 	}
 	for i := 0; i < c.Scale(1, 4); i++ {
@@ -1953,16 +2028,19 @@ func Run(c *core.Ctx) {
 	for i := 0; i < c.Scale(18, 240); i++ {
 		mixedTranslateCase(c, i)
 	}
+	for i := 0; i < c.Scale(6, 16); i++ {
+		bigDocCase(c, i)
+	}
 	for i := 0; i < c.Scale(80, 1500); i++ {
 		docCase(c, i)
 	}
 	for i := 0; i < c.Scale(60, 1000); i++ {
 		nsCase(c, i)
 	}
-	for i := 0; i < c.Scale(120, 2500); i++ {
+	for i := 0; i < c.Scale(120, 2000); i++ {
 		foreignCase(c, i)
 	}
-	for i := 0; i < c.Scale(80, 1500); i++ {
+	for i := 0; i < c.Scale(80, 1200); i++ {
 		foreignPxCase(c, i)
 	}
 	if c.Gotree != "" {
